@@ -35,6 +35,8 @@ struct Op {
     reg: u8,
 }
 const CODE: u32 = 0xffd000;
+/// MOV.W R0,R0: changes no register and no memory (this emulator does not implement NOP)
+const FETCHED: u32 = 0x0d00;
 
 fn edge_addr(e: &mut Ent) -> u32 {
     let edges: [u32; 10] = [0x000000, 0x0000ff, 0x400000, 0x5fffff, 0xfee000, 0xfee0ff, 0xffbf20, 0xffff1f, 0xffff20, 0xffffe9];
@@ -68,6 +70,23 @@ fn build_history(e: &mut Ent) -> Vec<Op> {
         if clash(addr) {
             addr = 0xffe000 + (addr & 0xfe);
         }
+        if e.chance(1, 7) {
+            // an instruction fetch is a read too (sz 3): from an accessible word it must see what the data
+            // path stored there (MOV.W R0,R0 is stored first), from anywhere else it must fail and change nothing
+            let mut pc = addr & !1;
+            if e.chance(1, 8) {
+                pc |= e.pick(&[0x0100_0000u32, 0x8000_0000, 0xff00_0000]);
+            }
+            let clash2 = |a: u32| (a + 2 > CODE - 8 && a < CODE + 16) || is_port_reg(a) || is_port_reg(a + 1);
+            if pc < 0x0100_0000 && clash2(pc) {
+                pc = 0xffe000 + (pc & 0xfe);
+            }
+            if accessible(pc as u64) && accessible(pc as u64 + 1) {
+                ops.push(Op { write: true, sz: 1, addr: pc, value: FETCHED, reg: e.below(16) as u8 });
+            }
+            ops.push(Op { write: false, sz: 3, addr: pc, value: e.u32(), reg: 0 });
+            continue;
+        }
         ops.push(Op { write: e.chance(1, 2), sz, addr, value: e.u32(), reg: e.below(if sz == 2 { 8 } else { 16 }) as u8 });
     }
     ops
@@ -81,6 +100,48 @@ fn run_history(emu: &mut Emu, ops: &[Op]) -> Result<(usize, usize, usize), Strin
     let (mut overlap_reads, mut edge, mut failing) = (0, 0, 0);
     let mut result = Ok(());
     for (idx, op) in ops.iter().enumerate() {
+        if op.sz == 3 {
+            // instruction fetch at op.addr
+            let pc = op.addr;
+            let ok = accessible(pc as u64) && accessible(pc as u64 + 1);
+            if ok && (get(&model, pc) != (FETCHED >> 8) as u8 || get(&model, pc + 1) != FETCHED as u8) {
+                continue; // not the stored instruction (replay files edited by hand): what would execute is not this check's subject
+            }
+            let er = [op.value; 8];
+            emu.cpu.er = er;
+            emu.set_pc(pc);
+            emu.set_ccr(0);
+            emu.clear_write_log();
+            let res = emu.step();
+            let log: Vec<u32> = emu.cpu.bus.verif_write_log.clone();
+            if !log.is_empty() {
+                result = Err(format!("op {} {:?}: an instruction fetch wrote to {:06x?}", idx, op, log));
+                break;
+            }
+            if emu.cpu.er != er {
+                result = Err(format!("op {} {:?}: an instruction fetch (of MOV.W R0,R0 / failing) changed the registers", idx, op));
+                break;
+            }
+            match (ok, res) {
+                (true, EmuResult::Ok(_)) => {
+                    if emu.pc() != pc + 2 {
+                        result = Err(format!("op {} {:?}: the MOV.W R0,R0 stored at {:06x} was not what the instruction fetch saw (PC {:06x})", idx, op, pc, emu.pc()));
+                        break;
+                    }
+                    edge += 1;
+                }
+                (true, other) => {
+                    result = Err(format!("op {} {:?}: the word at {:06x} is accessible and holds the MOV.W R0,R0 stored there, the fetch failed: {:?}", idx, op, pc, other));
+                    break;
+                }
+                (false, EmuResult::Err(_)) => failing += 1,
+                (false, other) => {
+                    result = Err(format!("op {} {:?}: instruction fetch from an inaccessible address did not fail: {:?}", idx, op, other));
+                    break;
+                }
+            }
+            continue;
+        }
         let sz = [Sz::B, Sz::W, Sz::L][op.sz as usize];
         let size = sz.bytes();
         let insn = if op.write { Insn::Store { sz, s: op.reg, ea: Ea::A24(op.addr) } } else { Insn::Load { sz, ea: Ea::A24(op.addr), d: op.reg } };
@@ -352,7 +413,7 @@ pub fn run(ctx: &Ctx) -> i32 {
     let hstats = par_shards(ctx, nshards, |shard| {
         let w = Worker::new(ctx);
         let ent = entropy_n(400);
-        let _ = run_prop(mix(ctx.seed, 0x0901_0000 + shard as u64), nh / nshards as u32, &ent, |raw, shrinking| {
+        let _dbg = run_prop(mix(ctx.seed, 0x0901_0000 + shard as u64), nh / nshards as u32, &ent, |raw, shrinking| {
             let ops = build_history(&mut Ent::new(raw));
             let r = run_history(&mut w.emu.borrow_mut(), &ops);
             let mut st = w.stats.borrow_mut();
@@ -366,7 +427,7 @@ pub fn run(ctx: &Ctx) -> i32 {
                         st.class_n("history: accesses touching an inaccessible byte", failing as u64);
                         st.class_n("history: reads overlapping an earlier write of another extent", ov as u64);
                         if ov > 0 || edge > 0 {
-                            st.nontrivial(key_hash(&format!("{:?}", ops)), || json!({"ops": ops.iter().take(12).map(|o| format!("{}{} {:06x}", if o.write { "st" } else { "ld" }, ["B", "W", "L"][o.sz as usize], o.addr)).collect::<Vec<_>>(), "n_ops": ops.len()}));
+                            st.nontrivial(key_hash(&format!("{:?}", ops)), || json!({"ops": ops.iter().take(12).map(|o| format!("{}{} {:06x}", if o.write { "st" } else if o.sz == 3 { "" } else { "ld" }, ["B", "W", "L", "fetch"][o.sz as usize], o.addr)).collect::<Vec<_>>(), "n_ops": ops.len()}));
                         }
                     }
                     Ok(())
@@ -388,6 +449,7 @@ pub fn run(ctx: &Ctx) -> i32 {
                 }
             }
         });
+        if std::env::var("H8DBG").is_ok() { eprintln!("shard {} -> {:?} fails {}", shard, _dbg.as_ref().map(|x| &x.1), w.stats.borrow().failures.len()); }
         w.stats.into_inner()
     });
     stats.merge(hstats);
